@@ -262,13 +262,20 @@ def run(ctx):
                                            summary=f"remove_long_lines on a {fmt} stream truncated at byte {k} of {len(blob)} (stdin: {how}): "
                                                    f"{'hang' if st == 'HANG' else 'exit status 0'} with {out.count(10)} of 4000 lines written")
                     break
-    # ---------------- GZCompress, bulk: semi-compressible bodies of 30..200 kB (warc_parallel -z compresses every record with it)
-    gzr = pvlib.run_lines(impl, [f"z.gzcompressrand {ctx.seed} {1500 if ctx.tier == 'quick' else 20000} 30000 200000"], env=pvlib.san_env(), timeout=3000, per_line_timeout=3000, stall=3000)[0]
-    ctx.count("z.gzcompressrand", 1, [gzr[:40]])
-    ctx.cov["gzcompress_bulk"] = gzr[:80]
-    if not gzr.startswith("ok "):
-        pvlib.report_violation(ctx, "zgzcompress-bulk", {"ops": [f"z.gzcompressrand {ctx.seed} 1500 30000 200000"], "impl": gzr[:400]},
-                               summary=f"GZCompress on pseudo-random text bodies: {gzr[:300]}")
+    # ---------------- GZCompress, bulk: semi-compressible bodies of 60..130 kB (warc_parallel -z compresses every record with it);
+    # the buffer-edge cases (output position a few bytes short of a 4 KiB increment when the input runs out) come up about once
+    # in 1500 bodies, so several thousand are tried, in parallel processes
+    from concurrent.futures import ThreadPoolExecutor
+    nproc, per = 16, (300 if ctx.tier == "quick" else 4000)
+    gops = [f"z.gzcompressrand {ctx.seed * 100 + k} {per} 60000 130000" for k in range(nproc)]
+    with ThreadPoolExecutor(max_workers=nproc) as ex:
+        gres = list(ex.map(lambda o: pvlib.run_lines(impl, [o], env=pvlib.san_env(), timeout=3000, per_line_timeout=3000, stall=3000)[0], gops))
+    ctx.count("z.gzcompressrand", len(gops), gops)
+    ctx.cov["gzcompress_bulk_bodies"] = nproc * per
+    for o, gzr in zip(gops, gres):
+        if not gzr.startswith("ok "):
+            pvlib.report_violation(ctx, "zgzcompress-bulk:" + o, {"ops": [o], "impl": gzr[:400]}, summary=f"GZCompress on pseudo-random text bodies ({o}): {gzr[:300]}")
+            break
     # ---------------- GZCompress
     gops, gdata = [], []
     for n in [0, 1, 2, 100, 4000, 4090, 4096, 5000, 70000] + [rng.randrange(0, 70000) for _ in range(10 if ctx.tier == "quick" else 100)]:
